@@ -233,7 +233,25 @@ def run(ctx, res):
         except ValueError:
             pass
         return k
-    preds = {_canon_lookup(k) for k in preds}
+    def _drop_infeasible_disjunct(k):
+        # `strip_prefix('/').unwrap_or(name)` written inside the predicate: two guarded disjuncts; the one for "nothing to
+        # strip" cannot be taken under the enclosing `name.starts_with('/')` test
+        m_ = re.match(r"^any\(parent_elements\.iter\(\), \{(.+)\}\)$", k)
+        if not m_ or " | " not in m_.group(1):
+            return k
+        keep = []
+        for d_ in m_.group(1).split(" | "):
+            g = re.match(r"^(!?)is_some\((.+)\.strip_prefix\('/'\)\) & (.+)$", d_)
+            if not g:
+                return k
+            starts = g.group(2) + ".starts_with('/')"
+            if not all(o["decisions"].get(starts) is True for o in outs if k in o["decisions"]):
+                return k
+            if g.group(1) == "!":
+                continue
+            keep.append(g.group(3))
+        return "any(parent_elements.iter(), {%s})" % " | ".join(keep) if keep else k
+    preds = {_canon_lookup(_drop_infeasible_disjunct(k)) for k in preds}
     if preds == {want}:
         res.holds("C10.R4", fn, "ancestor-lookup", "any(|p| p.name == closer.name without its '/')")
     else:
